@@ -1,16 +1,441 @@
-// Correspondence with the Lean model (driver c10model).
+// Correspondence with the Lean model (driver c10model): the model is fed the *real* definition
+// (typed extraction, extract.go) and the registries of the *real* schema.New; its answers are
+// compared with what the implementation did.
 package main
 
 import (
+	"encoding/json"
+	"fmt"
+	"sort"
+	"strconv"
+
 	"github.com/ccbrown/api-fu/graphql/schema"
+	"github.com/ccbrown/api-fu/graphql/schema/introspection"
+
+	"verifharness/hx"
 )
 
-func (h *harness) modelIntroLine(bt *built, s *schema.Schema, F []string) (string, error) {
-	return "", nil
+func registrySexps(s *schema.Schema) (hx.Sexp, hx.Sexp) {
+	names := []string{}
+	for n := range s.NamedTypes() {
+		names = append(names, n)
+	}
+	sort.Strings(names)
+	reg := []hx.Sexp{}
+	impls := []hx.Sexp{}
+	for _, n := range names {
+		reg = append(reg, hx.A(n))
+		if _, ok := s.NamedTypes()[n].(*schema.InterfaceType); ok {
+			xs := []hx.Sexp{hx.A(n)}
+			for _, o := range s.InterfaceImplementations(n) {
+				xs = append(xs, hx.A(o.Name))
+			}
+			if len(xs) > 1 {
+				impls = append(impls, hx.L(xs...))
+			}
+		}
+	}
+	return hx.N("registry", reg...), hx.N("impls", impls...)
 }
 
-func (h *harness) tieIntro(bt *built, s *schema.Schema, F []string, got *IntroD) *failure { return nil }
+func featuresSexp(F []string) hx.Sexp {
+	xs := []hx.Sexp{}
+	for _, f := range F {
+		xs = append(xs, hx.A(f))
+	}
+	return hx.N("features", xs...)
+}
 
-func (h *harness) tieRebuild(bt *built, s *schema.Schema, data []byte) *failure { return nil }
+func (h *harness) modelIntroLine(bt *built, s *schema.Schema, F []string) (string, error) {
+	x, err := extract(bt.def, newIDAlloc(1))
+	if err != nil {
+		return "", err
+	}
+	reg, impls := registrySexps(s)
+	return hx.N("introspect", x, reg, impls, featuresSexp(F)).String(), nil
+}
 
-func (h *harness) tieClone(bt *built, cl *schema.SchemaDefinition) *failure { return nil }
+// ---- decoding the model's IntroData -----------------------------------------------------------
+
+func optStrOf(x hx.Sexp) (*string, error) {
+	if !x.IsList {
+		if x.Atom == "none" {
+			return nil, nil
+		}
+		return nil, fmt.Errorf("bad optional string %v", x)
+	}
+	if len(x.List) == 2 && x.List[0].Atom == "some" && !x.List[1].IsList {
+		s := x.List[1].Atom
+		return &s, nil
+	}
+	return nil, fmt.Errorf("bad optional string %v", x)
+}
+
+func refOf(x hx.Sexp) (RefD, error) {
+	if !x.IsList || len(x.List) < 2 {
+		return RefD{}, fmt.Errorf("bad ref %v", x)
+	}
+	switch x.List[0].Atom {
+	case "named":
+		if len(x.List) != 3 {
+			return RefD{}, fmt.Errorf("bad ref %v", x)
+		}
+		n := x.List[2].Atom
+		return RefD{Kind: x.List[1].Atom, Name: &n}, nil
+	case "wrap":
+		if len(x.List) != 3 {
+			return RefD{}, fmt.Errorf("bad ref %v", x)
+		}
+		in, err := refOf(x.List[2])
+		if err != nil {
+			return RefD{}, err
+		}
+		return RefD{Kind: x.List[1].Atom, OfType: &in}, nil
+	case "cut":
+		return RefD{Kind: x.List[1].Atom}, nil
+	}
+	return RefD{}, fmt.Errorf("bad ref %v", x)
+}
+
+func ivOf(x hx.Sexp) (InputValueD, error) {
+	if !x.IsList || len(x.List) != 5 || x.List[0].Atom != "iv" {
+		return InputValueD{}, fmt.Errorf("bad input value %v", x)
+	}
+	d, err := optStrOf(x.List[2])
+	if err != nil {
+		return InputValueD{}, err
+	}
+	r, err := refOf(x.List[3])
+	if err != nil {
+		return InputValueD{}, err
+	}
+	out := InputValueD{Name: x.List[1].Atom, Desc: d, Type: r}
+	if !x.List[4].IsList && x.List[4].Atom == "error" {
+		e := "<the defaultValue resolver fails>"
+		out.Default = &e
+	} else if out.Default, err = optStrOf(x.List[4]); err != nil {
+		return InputValueD{}, err
+	}
+	return out, nil
+}
+
+func ivsOf(xs []hx.Sexp) ([]InputValueD, error) {
+	out := []InputValueD{}
+	for _, x := range xs {
+		iv, err := ivOf(x)
+		if err != nil {
+			return nil, err
+		}
+		out = append(out, iv)
+	}
+	return out, nil
+}
+
+// optListOf decodes none | (some x…).
+func optListOf(x hx.Sexp) ([]hx.Sexp, bool, error) {
+	if !x.IsList {
+		if x.Atom == "none" {
+			return nil, false, nil
+		}
+		return nil, false, fmt.Errorf("bad optional list %v", x)
+	}
+	if len(x.List) >= 1 && x.List[0].Atom == "some" {
+		return x.List[1:], true, nil
+	}
+	return nil, false, fmt.Errorf("bad optional list %v", x)
+}
+
+func introOf(x hx.Sexp) (*IntroD, error) {
+	if !x.IsList || len(x.List) != 6 || x.List[0].Atom != "intro" {
+		return nil, fmt.Errorf("unexpected reply %.200s", x.String())
+	}
+	out := &IntroD{Types: []TypeD{}, Directives: []DirectiveD{}}
+	q, err := optStrOf(x.List[1])
+	if err != nil || q == nil {
+		return nil, fmt.Errorf("bad queryType")
+	}
+	out.QueryType = NameD{*q}
+	if m, err := optStrOf(x.List[2]); err != nil {
+		return nil, err
+	} else if m != nil {
+		out.MutationType = &NameD{*m}
+	}
+	if s, err := optStrOf(x.List[3]); err != nil {
+		return nil, err
+	} else if s != nil {
+		out.SubscriptionType = &NameD{*s}
+	}
+	for _, t := range x.List[4].List[1:] {
+		if !t.IsList || len(t.List) != 9 {
+			return nil, fmt.Errorf("bad type %v", t)
+		}
+		td := TypeD{Kind: t.List[1].Atom, Name: t.List[2].Atom}
+		if td.Desc, err = optStrOf(t.List[3]); err != nil {
+			return nil, err
+		}
+		if fs, ok, err := optListOf(t.List[4]); err != nil {
+			return nil, err
+		} else if ok {
+			out := []FieldD{}
+			for _, f := range fs {
+				if !f.IsList || len(f.List) != 7 {
+					return nil, fmt.Errorf("bad field %v", f)
+				}
+				fd := FieldD{Name: f.List[1].Atom, IsDeprecated: f.List[5].Atom == "true"}
+				if fd.Desc, err = optStrOf(f.List[2]); err != nil {
+					return nil, err
+				}
+				if fd.Args, err = ivsOf(f.List[3].List[1:]); err != nil {
+					return nil, err
+				}
+				if fd.Type, err = refOf(f.List[4]); err != nil {
+					return nil, err
+				}
+				if fd.Depr, err = optStrOf(f.List[6]); err != nil {
+					return nil, err
+				}
+				out = append(out, fd)
+			}
+			td.Fields = &out
+		}
+		if xs, ok, err := optListOf(t.List[5]); err != nil {
+			return nil, err
+		} else if ok {
+			ivs, err := ivsOf(xs)
+			if err != nil {
+				return nil, err
+			}
+			td.InputFields = &ivs
+		}
+		refs := func(x hx.Sexp) (*[]RefD, error) {
+			xs, ok, err := optListOf(x)
+			if err != nil || !ok {
+				return nil, err
+			}
+			out := []RefD{}
+			for _, r := range xs {
+				rd, err := refOf(r)
+				if err != nil {
+					return nil, err
+				}
+				out = append(out, rd)
+			}
+			return &out, nil
+		}
+		if td.Interfaces, err = refs(t.List[6]); err != nil {
+			return nil, err
+		}
+		if xs, ok, err := optListOf(t.List[7]); err != nil {
+			return nil, err
+		} else if ok {
+			out := []EnumValueD{}
+			for _, v := range xs {
+				if !v.IsList || len(v.List) != 5 {
+					return nil, fmt.Errorf("bad enum value %v", v)
+				}
+				e := EnumValueD{Name: v.List[1].Atom, IsDeprecated: v.List[3].Atom == "true"}
+				if e.Desc, err = optStrOf(v.List[2]); err != nil {
+					return nil, err
+				}
+				if e.Depr, err = optStrOf(v.List[4]); err != nil {
+					return nil, err
+				}
+				out = append(out, e)
+			}
+			td.EnumValues = &out
+		}
+		if td.PossibleTypes, err = refs(t.List[8]); err != nil {
+			return nil, err
+		}
+		out.Types = append(out.Types, td)
+	}
+	for _, d := range x.List[5].List[1:] {
+		if !d.IsList || len(d.List) != 5 {
+			return nil, fmt.Errorf("bad directive %v", d)
+		}
+		dd := DirectiveD{Name: d.List[1].Atom, Locations: []string{}}
+		if dd.Desc, err = optStrOf(d.List[2]); err != nil {
+			return nil, err
+		}
+		for _, l := range d.List[3].List[1:] {
+			dd.Locations = append(dd.Locations, l.Atom)
+		}
+		if dd.Args, err = ivsOf(d.List[4].List[1:]); err != nil {
+			return nil, err
+		}
+		out.Directives = append(out.Directives, dd)
+	}
+	sortIntro(out)
+	return out, nil
+}
+
+// ---- ties ---------------------------------------------------------------------------------------
+
+func corr(class, what string) *failure {
+	return &failure{Part: "model", Kind: "correspondence", Class: class, What: what}
+}
+
+func (h *harness) ask(line string) (hx.Sexp, *failure) {
+	rep, err := h.model.Ask(line)
+	if err != nil {
+		return hx.Sexp{}, corr("model-driver", "model driver failed: "+err.Error())
+	}
+	x, err := hx.ParseSexp(rep)
+	if err != nil {
+		return hx.Sexp{}, corr("model-driver", fmt.Sprintf("unreadable model reply %.200q: %v", rep, err))
+	}
+	return x, nil
+}
+
+// tieIntro compares the model's `introspect` (and, for the first feature set of a schema, the
+// model's registries and the acceptance predicate) with the implementation.
+func (h *harness) tieIntro(bt *built, s *schema.Schema, F []string, got *IntroD) *failure {
+	x, err := extract(bt.def, newIDAlloc(1))
+	if err != nil {
+		return corr("extract", "the definition cannot be abstracted for the model: "+err.Error())
+	}
+	reg, impls := registrySexps(s)
+	if bt.tied == 0 {
+		bt.tied++
+		// registries: the model's Inspect traversal vs the real one (as sets)
+		rep, f := h.ask(hx.N("new", x).String())
+		if f != nil {
+			return f
+		}
+		h.count("model:new")
+		if a, b := canonRegistries(rep), canonRegistries(hx.N("reg", reg, impls)); a != b {
+			return corr("model-new", "registries differ: model "+a+", implementation "+b)
+		}
+		// acceptance: the invariant the theorems assume must hold of every schema schema.New returned
+		rep, f = h.ask(hx.N("accepted", x, reg, impls).String())
+		if f != nil {
+			return f
+		}
+		h.count("model:accepted")
+		if rep.String() != "(accepted true true true true true)" {
+			return corr("model-accepted", "the acceptance predicate the theorems assume (wf closed implsExact kindsOk featuresOk) is false of a schema schema.New accepted: "+rep.String())
+		}
+	}
+	rep, f := h.ask(hx.N("introspect", x, reg, impls, featuresSexp(F)).String())
+	if f != nil {
+		return f
+	}
+	h.count("model:introspect")
+	want, err := introOf(rep)
+	if err != nil {
+		return corr("model-intro", "model reply: "+err.Error())
+	}
+	b, _ := json.Marshal(got)
+	var g IntroD
+	json.Unmarshal(b, &g)
+	canonDefaults(want)
+	canonDefaults(&g)
+	if d := diff(want, &g); d != "" {
+		return corr("model-intro", fmt.Sprintf("features %v: model and implementation disagree at %s (want = model)", F, d))
+	}
+	return nil
+}
+
+func canonRegistries(x hx.Sexp) string {
+	if !x.IsList || len(x.List) != 3 {
+		return x.String()
+	}
+	names := []string{}
+	for _, n := range x.List[1].List[1:] {
+		names = append(names, n.Atom)
+	}
+	sort.Strings(names)
+	impls := []string{}
+	for _, p := range x.List[2].List[1:] {
+		os := []string{}
+		for _, o := range p.List[1:] {
+			os = append(os, o.Atom)
+		}
+		sort.Strings(os)
+		impls = append(impls, fmt.Sprintf("%s<-%v", p.List[0].Atom, os))
+	}
+	sort.Strings(impls)
+	return fmt.Sprintf("types%v impls%v", names, impls)
+}
+
+var idTags = map[string]bool{"self": true, "feat": true, "dirs": true, "args": true, "fields": true, "ifaces": true, "members": true,
+	"values": true, "inputs": true, "locs": true, "additional": true, "directives": true, "t": true}
+
+// canonIDs replaces identities >= base by "new" (containers the clone allocated) and sorts the
+// names of `additional` (their order is immaterial and the rebuilt one comes out of a Go map).
+func canonIDs(x hx.Sexp, base int, sortAdditional bool) hx.Sexp {
+	if !x.IsList {
+		return x
+	}
+	out := hx.Sexp{IsList: true, List: make([]hx.Sexp, len(x.List))}
+	for i, e := range x.List {
+		out.List[i] = canonIDs(e, base, sortAdditional)
+	}
+	if len(out.List) >= 2 && !out.List[0].IsList && idTags[out.List[0].Atom] && !out.List[1].IsList {
+		if n, err := strconv.Atoi(out.List[1].Atom); err == nil && n >= base {
+			out.List[1] = hx.A("new")
+		}
+		if sortAdditional && out.List[0].Atom == "additional" {
+			rest := out.List[2:]
+			sort.Slice(rest, func(i, j int) bool { return rest[i].Atom < rest[j].Atom })
+		}
+	}
+	return out
+}
+
+// tieClone compares contents and sharing pattern of the real clone with the model's.
+func (h *harness) tieClone(bt *built, cl *schema.SchemaDefinition) *failure {
+	ids := newIDAlloc(1)
+	x1, err := extract(bt.def, ids)
+	if err != nil {
+		return corr("extract", "the definition cannot be abstracted for the model: "+err.Error())
+	}
+	base := ids.next
+	x2, err := extract(cl, ids)
+	if err != nil {
+		return corr("extract", "the clone cannot be abstracted for the model: "+err.Error())
+	}
+	rep, f := h.ask(hx.N("clone", hx.I(int64(base)), x1).String())
+	if f != nil {
+		return f
+	}
+	h.count("model:clone")
+	a, b := canonIDs(rep, base, false).String(), canonIDs(x2, base, false).String()
+	if a != b {
+		return corr("model-clone", "contents / sharing pattern of the clone differ (identities below the base are shared with the original): model vs implementation "+firstDiff(a, b))
+	}
+	return nil
+}
+
+// tieRebuild compares the real rebuilt definition with the model's rebuild (introspect S ⊤).
+func (h *harness) tieRebuild(bt *built, s *schema.Schema, data []byte) *failure {
+	var result struct {
+		Schema introspection.SchemaData `json:"__schema"`
+	}
+	if err := json.Unmarshal(data, &result); err != nil {
+		return nil
+	}
+	def2, err := result.Schema.GetSchemaDefinition()
+	if err != nil {
+		return nil
+	}
+	x2, err := extract(def2, newIDAlloc(1))
+	if err != nil {
+		return corr("extract", "the rebuilt definition cannot be abstracted for the model: "+err.Error())
+	}
+	x, err := extract(bt.def, newIDAlloc(1))
+	if err != nil {
+		return corr("extract", err.Error())
+	}
+	reg, impls := registrySexps(s)
+	rep, f := h.ask(hx.N("rebuild", x, reg, impls, featuresSexp(bt.sdef.allFeatures())).String())
+	if f != nil {
+		return f
+	}
+	h.count("model:rebuild")
+	a, b := canonIDs(rep, 1<<40, true).String(), canonIDs(eraseIDs(x2), 1<<40, true).String()
+	if a != b {
+		return corr("model-rebuild", "rebuilt definitions differ: model vs implementation "+firstDiff(a, b))
+	}
+	return nil
+}
